@@ -906,10 +906,11 @@ fn gen_num(r: &mut Rng, frac: bool, neg: bool) -> String {
 }
 
 fn gen_frags(r: &mut Rng, maxn: usize, frac: bool, neg: bool) -> String {
-    let n = match r.below(10) {
-        0 => 0,
-        1 => 1,
-        2..=7 => r.range(2, 12.min(maxn)),
+    let n = match r.below(40) {
+        0..=3 => 0,
+        4..=7 => 1,
+        8..=31 => r.range(2, 12.min(maxn)),
+        32 => { if r.chance(1, 8) { r.range(maxn, maxn * 5) } else { r.range(2, maxn) } }
         _ => r.range(2, maxn),
     };
     let v: Vec<String> = (0..n)
@@ -930,7 +931,7 @@ fn gen_frags(r: &mut Rng, maxn: usize, frac: bool, neg: bool) -> String {
 }
 
 fn gen_lws(r: &mut Rng, frac: bool, maxlen: usize) -> String {
-    let n = *r.pick(&[1usize, 1, 1, 2, 2, 0, 3]);
+    let n = *r.pick(&[1usize, 1, 1, 2, 2, 0, 3, 5]);
     let n = n.min(maxlen);
     if n == 0 {
         return "~".to_string();
@@ -1091,7 +1092,7 @@ pub fn generate<W: Write>(mode: &str, r: &mut Rng, out: &mut W) {
         "ff" => {
             let frac = r.chance(1, 3);
             let neg = r.chance(1, 6);
-            vec!["ff".into(), gen_frags(r, 40, frac, neg), gen_lws(r, frac, 3)]
+            vec!["ff".into(), gen_frags(r, 40, frac, neg), gen_lws(r, frac, 5)]
         }
         "of" => {
             let frac = r.chance(1, 5);
